@@ -38,10 +38,10 @@ ASSUMPTIONS = [
     "C01 violation",
 ]
 BOUND = {
-    "quick": "A: all cells; B: all programs of <=3 sections (819); C: all 33 "
+    "quick": "A: all cells; B: all programs of <=3 sections (1110); C: all 33 "
     "input names x 3 positions x 6 force fields x 3 option sets + strands + "
     "user force field runs",
-    "thorough": "A: all cells; B: all programs of <=4 sections (7380); C: as "
+    "thorough": "A: all cells; B: all programs of <=4 sections (11110); C: as "
     "quick plus hydrogenated inputs for the default and --noopt --nodebump "
     "option sets",
 }
@@ -108,6 +108,10 @@ SECTION_TEMPLATES = {
                "</residue>",
     "native_alias": "<residue><name>X..</name><atom><name>H</name>"
                     "<useatomname>HN</useatomname></atom></residue>",
+    # names spelled with XML character / entity references (H1' and HN):
+    # the parser hands such text to the reader in several pieces
+    "entity": "<residue><name>XAL</name><atom><name>H1&apos;</name>"
+              "<useatomname>H&#78;</useatomname></atom></residue>",
 }
 TEMPLATE_ORDER = list(SECTION_TEMPLATES)
 
